@@ -107,6 +107,25 @@ def run(prop, tier, seed):
                            ["std::io behaviour is itself checked against the byte-queue model in the same run (and by C14)",
                             "async methods are polled exactly once with a no-op waker; Pending is a violation"],
                            "differential: " + IO_RULE, "as C14, for each of the three feature configurations")
+    if prop == "C13":
+        runs = [("checked", "checked", ["cmp"]), ("release", "release", ["cmp"])]
+        return run_reports(prop, tier, seed, runs, "replay-cmp",
+                           ["expected results are computed from the two logical sequences only (hand-written lexicographic order, cross-checked against the slice order)",
+                            "hash equality is asserted under std's DefaultHasher only for equal contents and equal capacity, as the property states"],
+                           "pairs of buffers: all capacity pairs (N, M) in 0..=5, all layouts of both sides, all contents over {0,1} ({0,1,NaN} for partial orders), "
+                           "compared as buffer/slice/array/reference partners; Debug under 32 format strings; proptest for capacities up to 33 and a 4-letter alphabet. "
+                           "non-trivial: both sides non-empty and at least one side physically wrapped; distinct by case hash",
+                           "all capacity pairs <= 5 x all layouts of both sides x all contents over the alphabet")
+    if prop == "C19":
+        runs = [("checked", "checked", ["zst"]), ("release", "release", ["zst"])]
+        return run_reports(prop, tier, seed, runs, "replay-zst",
+                           ["counter model: for a zero-sized element type only lengths, Some/None/Err shapes and the number of constructor/destructor runs are observable",
+                            "the assertion-checked build turns arithmetic overflow, division by zero and debug assertions into panics"],
+                           "zero-sized drop-counting elements at 13 capacities (usize::MAX, usize::MAX-1, 2^63+1, 2^63, 2^63-1, 2^32+1, 2^32, 2^32-1, 65537, 3, 2, 1, 0); "
+                           "front position near N (push_front from empty) and near 0, moved across the wrap by pops; every operation whose cost does not grow with N "
+                           "with boundary arguments (0, 1, len-1, len, len+1, N-1, N, usize::MAX) and every bound pair; proptest histories. "
+                           "non-trivial: N >= 2^32 (front position within 12 of 0 or of N by construction); distinct by case hash",
+                           "13 capacities x 66 constructed layouts x every listed operation/argument class, each followed by a fixed 4-step tail")
     cc.inconclusive(f"property {prop} has no engine yet")
 
 
@@ -121,6 +140,18 @@ def replay(prop, path):
             cc.log(f"--- build {v}")
             cc.log(p.stdout.strip())
             bad |= p.returncode not in (0, 5)
+        if bad:
+            cc.log(f"VIOLATION property={prop} replay={path}")
+            sys.exit(1)
+        sys.exit(0)
+    if prop in ("C13", "C19"):
+        bad = False
+        for v in ["checked", "release"]:
+            cc.build(v)
+            p = subprocess.run([cc.binary(v), "replay-cmp" if prop == "C13" else "replay-zst", path], stdout=subprocess.PIPE, stderr=subprocess.STDOUT, text=True, timeout=120)
+            cc.log(f"--- build {v}")
+            cc.log(p.stdout.strip())
+            bad |= p.returncode != 0
         if bad:
             cc.log(f"VIOLATION property={prop} replay={path}")
             sys.exit(1)
